@@ -62,7 +62,7 @@ CONFIG = dict(
          "with 255-AS segments, >255 hops, wide AS, confed segments; attributes stored with EXTENDED/PARTIAL bits (values "
          "obtained through the real decoder); OPEN capability blocks around 255 bytes; non-trivial = at least one frame "
          "longer than the fixed header was produced; distinct = distinct case line",
-    expect_tokens=["(panic)", "(err 1 2)", "(err 3 1)", "(err 3 9)", "(err 2 0)", "(fp t)", "(fp na)", "(fp f)", "(eor ", "(open ",
+    expect_tokens=["(panic)", "(err 1 2)", "(err 3 1)", "(err 3 9)", "(err 2 0)", "(fp t)", "(fp na)", "(eor ", "(open ",
                    "(notif ", "keepalive", "(rr ", "(upd (r 1 1 ", "(upd none (r 2 1 ", "(upd none (r 1 1 ", "(v6ll ", "(o ",
                    "none none (u 1 1 ", "none none none (u 2 1 ", "(errs (", "(opq "],
     trusted_base=["model Rbgp/Enc/Model.lean (encoder) and Rbgp/Enc/Reader.lean (peer decoder, written from RFC 4271/4760/7911/"
@@ -292,7 +292,8 @@ def gen_attrs(r, info, big_target=None):
         attrs.append("(opq %d %d (fill %d %d))" % (code, flags, big_target, r.below(1000)))
     # oddities (outside the quantifier; exercise the model only)
     if r.chance(1, 40):
-        attrs.append(r.pick(["(val 1 0)", "(bin 8 x0102)", "(val 8 5)", "(bin 7 x0001)", "(bin 2 x0201)", "(bin 3 x0a000001)", "(bin 17 x020100010000)"]))
+        attrs.append(r.pick(["(val 1 0)", "(bin 8 x0102)", "(val 8 5)", "(bin 7 x0001)", "(bin 2 x0201)", "(bin 3 x0a000001)", "(bin 17 x020100010000)", "(bin 3 x0a0000)",
+                             "(bin 26 x01000b0000000000000064)", "(bin 26 x010003)", "(bin 26 x0100)", "(raw 128 26 x01000400)"]))
     if r.chance(1, 40) and len(attrs) > 2:
         attrs.pop(r.below(2))
     if r.chance(1, 3):
